@@ -4,8 +4,10 @@ prints the shape tree of every returned object.  JSON on stdin -> one JSON line 
 tree encoding:  {"L": [dims]}  array-like,  "O"  dict (counts),  {"T": [...]}  tuple/list,
                 "ERR:<ExceptionType>"  the call raised.
 """
-import json, sys, warnings, time
+import json, os, sys, warnings, time
 
+os.environ.setdefault("XLA_FLAGS", "--xla_cpu_multi_thread_eigen=false intra_op_parallelism_threads=1")
+os.environ.setdefault("MKL_NUM_THREADS", "1")
 warnings.filterwarnings("ignore")
 import numpy as np
 import pennylane as qp
@@ -17,6 +19,7 @@ from pennylane.workflow.interfaces.jax_jit import _result_shape_dtype_struct, _j
 from pennylane.workflow.jacobian_products import TransformJacobianProducts, DeviceDerivatives
 
 jax.config.update("jax_enable_x64", True)
+torch.set_num_threads(1)
 
 
 def tree(x):
